@@ -133,6 +133,11 @@ def check(run):
                 bound = (-1 if cm[0] == '<' else 0) + cst
                 ok = bound <= 0
                 why = 'the guard %s only gives i + nsize - hsize <= %d: the last window reads %d byte(s) past the haystack' % (q.render(fd, atom), bound, bound)
+                # ... and the scan is complete: the guard admits the LAST window too (i + nsize == hsize), otherwise a needle that
+                # ends exactly at the end of the range is not found - a request that fills its buffer has no "first blank line"
+                run.check(bound >= 0, 'R12', 'window-covers-last-position', FIND + ': ' + q.render(fd, atom)[:50], fd.loc(atom),
+                          'the loop guard %s gives i + nsize - hsize <= %d: the window that ends exactly at the end of the haystack is never compared, so find() misses a needle there (find_request_len() returns -1 for a complete request whose blank line is its last four bytes)' % (q.render(fd, atom), bound),
+                          'the guard admits i + nsize == hsize')
         run.check(ok, 'R12', 'window-in-bounds', FIND + ': memcmp(hay + i, needle, nsize)', fd.loc(c), why, 'loop guard entails i + nsize <= hsize')
         loops = [n for n in fd.all_nodes() if n['k'] == 'for']
         okz = bool(loops) and is_node(loops[0].get('init')) and any(q.int_value(v.get('init')) == 0 for n in [loops[0]['init']] if n['k'] == 'decl' for v in n['vars']) and q.render(fd, loops[0].get('inc')) in ('++i', 'i++')
@@ -267,6 +272,28 @@ def check(run):
             by_search = bool(starts) and all(s_ == q.render(pr, r0) for s_ in starts)
             run.check(by_guard or by_search, 'R5', 'range-ordered', '%s: string(%s, %s)' % (PR, a0, a1), pr.loc(n), 'a string is built from two pointers whose order was not established (%s <= %s)' % (q.render(pr, r0), q.render(pr, r1)),
                       'ordered by a dominating comparison or by construction')
+    run.clause('variant of the path normaliser: every trip round a search loop moves the position the next search starts from strictly past the match (no iteration - not the one that finds nothing to pop either - leaves it where it was)')
+    nloops = 0
+    for hf in [g_ for g_ in fx.repo_functions() if g_.norm in ('sim::normalize',)]:
+        run.touch(hf)
+        for lp in [n for n in hf.all_nodes() if n['k'] in ('while', 'for', 'do') and is_node(n.get('cond'))]:
+            cl_ = [x for x in walk(lp['cond']) if x['k'] == 'ref' and x.get('dk') == 'local']
+            for lv in cl_:
+                sdefs = [(s_, d_) for s_, d_ in q.local_defs(hf, lv['did']) if any(y['k'] == 'call' and (q.callee_name(y) or '').split('::')[-1] in ('strchr', 'memchr', 'strstr', 'find') for y in walk(d_))]
+                if not sdefs:
+                    continue
+                origins = {y['did']: y.get('name') for _s, d_ in sdefs for c_ in walk(d_) if c_['k'] == 'call' and c_.get('args') for y in walk(c_['args'][0]) if y['k'] == 'ref' and y.get('dk') == 'local'}
+                for od, oname in origins.items():
+                    nloops += 1
+                    inside = {id(x) for x in walk(lp)}
+                    adv = [s_ for s_, d_ in q.local_defs(hf, od) if id(s_) in inside and (lambda lf: lf is not None and lf[0] == {lv.get('name'): 1} and lf[1] > 0)(q.linform(hf, d_))]
+                    cb = hf.cfg.node_block(lp['cond']) if hf.cfg.node_block(lp['cond']) is not None else None
+                    spins = cb is None or not adv or (cb in hf.cfg.reach_from(cb, avoid={hf.cfg.node_block(a_) for a_ in adv} - {None}))
+                    run.check(not spins, 'R4', 'search-loop-advances', '%s: loop on %s = search(%s, ..)' % (hf.norm, lv.get('name'), oname), hf.loc(lp),
+                              'a trip round the loop can return to its condition without `%s` having been moved past the match (%s = %s + k, k > 0): the next search starts at the same place and finds the same match - for a target such as "/../x" parse_request() never terminates' % (oname, oname, lv.get('name')),
+                              '%s is advanced past the match on every cycle' % oname)
+    if nloops < 1:
+        run.broke('normalize(): no search loop found (strchr loop confirmed by hand)')
     run.clause('last duplicate header wins: the header map is written by overwrite (operator[] assignment), not by first-wins insertion')
     hw = []
     for n in pr.all_nodes():
